@@ -104,6 +104,21 @@ fn event_of(e: u8) -> AnnounceEvent {
     }
 }
 
+/// property this process checks (set once in main): a failing clause that does not belong to it must not end the
+/// history, or it would mask a later failure of a clause that does (one change often breaks several clauses)
+static FOCUS: std::sync::OnceLock<String> = std::sync::OnceLock::new();
+static OTHER_CLAUSE_FAILURES: std::sync::atomic::AtomicU64 = std::sync::atomic::AtomicU64::new(0);
+
+macro_rules! bail {
+    ($f:expr) => {{
+        let f = $f;
+        if relevant(FOCUS.get().map(|s| s.as_str()).unwrap_or(""), f.clause) {
+            return Err(f);
+        }
+        OTHER_CLAUSE_FAILURES.fetch_add(1, std::sync::atomic::Ordering::Relaxed);
+    }};
+}
+
 fn run_history(h: &History, shape: &mut Shape) -> Result<u64, Fail> {
     match catch_unwind(AssertUnwindSafe(|| run_history_inner(h, shape))) {
         Ok(r) => r,
@@ -175,7 +190,7 @@ fn run_history_inner(h: &History, shape: &mut Shape) -> Result<u64, Fail> {
                 touched.insert((fam, hash));
                 let view = model.announce(hash, key, stopped, seeder, sample as u64 + h.max_peer_age as u64, [7; 20]);
                 if resp.complete != view.seeders || resp.incomplete != view.leechers {
-                    return Err(fail("counts", "http.swarm.announce.counts", format!("complete/incomplete {}/{} reference {}/{}", resp.complete, resp.incomplete, view.seeders, view.leechers)));
+                    bail!(fail("counts", "http.swarm.announce.counts", format!("complete/incomplete {}/{} reference {}/{}", resp.complete, resp.incomplete, view.seeders, view.leechers)));
                 }
                 let (mine, other_len): (Vec<PeerKey>, usize) = if fam == Fam::V4 {
                     (resp.peers.0.iter().map(|p| PeerKey { ip: IpAddr::V4(p.ip_address), port: p.port }).collect(), resp.peers6.0.len())
@@ -183,14 +198,14 @@ fn run_history_inner(h: &History, shape: &mut Shape) -> Result<u64, Fail> {
                     (resp.peers6.0.iter().map(|p| PeerKey { ip: IpAddr::V6(p.ip_address), port: p.port }).collect(), resp.peers.0.len())
                 };
                 if other_len != 0 {
-                    return Err(fail("family", "http.swarm.announce.family", format!("{} peers of the other address family returned to {:?}", other_len, canon)));
+                    bail!(fail("family", "http.swarm.announce.family", format!("{} peers of the other address family returned to {:?}", other_len, canon)));
                 }
                 let limit = match numwant {
                     None | Some(0) => h.max_peers,
                     Some(n) => (*n as usize).min(h.max_peers),
                 };
                 if let Err(e) = check_peer_list(&mine, &view.others, &key, limit, false) {
-                    return Err(fail("peerlist", "http.swarm.announce.peerlist", e));
+                    bail!(fail("peerlist", "http.swarm.announce.peerlist", e));
                 }
                 let large = is_large.entry((fam, hash)).or_insert(false);
                 let others = view.others.len();
@@ -237,12 +252,12 @@ fn run_history_inner(h: &History, shape: &mut Shape) -> Result<u64, Fail> {
                 let want: BTreeSet<[u8; 20]> = hashes.iter().take(h.max_scrape_torrents).copied().collect();
                 let got: BTreeSet<[u8; 20]> = resp.files.keys().map(|k| k.0).collect();
                 if want != got {
-                    return Err(fail("scrape", "http.swarm.scrape.set", format!("scrape reply lists {} torrents, expected exactly the first {} requested ({} distinct)", got.len(), h.max_scrape_torrents, want.len())));
+                    bail!(fail("scrape", "http.swarm.scrape.set", format!("scrape reply lists {} torrents, expected exactly the first {} requested ({} distinct)", got.len(), h.max_scrape_torrents, want.len())));
                 }
                 for (k, st) in resp.files.iter() {
                     let (s, l) = model.scrape(fam, &k.0);
                     if st.complete != s || st.incomplete != l || st.downloaded != 0 {
-                        return Err(fail("counts", "http.swarm.scrape.counts", format!("scrape {}: {}/{} reference {}/{}", vcore::hex(&k.0[..4]), st.complete, st.incomplete, s, l)));
+                        bail!(fail("counts", "http.swarm.scrape.counts", format!("scrape {}: {}/{} reference {}/{}", vcore::hex(&k.0[..4]), st.complete, st.incomplete, s, l)));
                     }
                 }
                 if hashes.len() > h.max_scrape_torrents {
@@ -281,10 +296,10 @@ fn run_history_inner(h: &History, shape: &mut Shape) -> Result<u64, Fail> {
                     resp.peers6.0.iter().map(|p| PeerKey { ip: IpAddr::V6(p.ip_address), port: p.port }).collect()
                 };
                 if got != view.others || resp.peers.0.len() + resp.peers6.0.len() != view.others.len() {
-                    return Err(fail("handout", "http.swarm.handout_set", format!("hand-out set differs: missing {:?} unexpected {:?}", view.others.difference(&got).collect::<Vec<_>>(), got.difference(&view.others).collect::<Vec<_>>())));
+                    bail!(fail("handout", "http.swarm.handout_set", format!("hand-out set differs: missing {:?} unexpected {:?}", view.others.difference(&got).collect::<Vec<_>>(), got.difference(&view.others).collect::<Vec<_>>())));
                 }
                 if resp.complete != view.seeders || resp.incomplete != view.leechers {
-                    return Err(fail("counts", "http.swarm.announce.counts", format!("observer saw {}/{} reference {}/{}", resp.complete, resp.incomplete, view.seeders, view.leechers)));
+                    bail!(fail("counts", "http.swarm.announce.counts", format!("observer saw {}/{} reference {}/{}", resp.complete, resp.incomplete, view.seeders, view.leechers)));
                 }
                 let _ = maps.handle_announce_request(&observer_config, &mut rng, vu, addr, mk(AnnounceEvent::Stopped));
                 model.announce(hash, key, true, false, 0, [9; 20]);
@@ -341,7 +356,7 @@ fn run_history_inner(h: &History, shape: &mut Shape) -> Result<u64, Fail> {
                 let (m6, _) = model.totals(Fam::V6);
                 let (g4, g6) = (maps.ipv4.verif_num_torrents(), maps.ipv6.verif_num_torrents());
                 if (g4, g6) != (m4, m6) {
-                    return Err(fail("torrent_count", "http.swarm.clean.torrent_count", format!("after clean the tracker holds {}/{} torrents (v4/v6), reference {}/{}", g4, g6, m4, m6)));
+                    bail!(fail("torrent_count", "http.swarm.clean.torrent_count", format!("after clean the tracker holds {}/{} torrents (v4/v6), reference {}/{}", g4, g6, m4, m6)));
                 }
                 shape.ev(52);
             }
@@ -532,6 +547,7 @@ fn relevant(property: &str, clause: &str) -> bool {
 fn main() {
     let args = Args::parse();
     let property = args.property();
+    let _ = FOCUS.set(property.clone());
     silence_panics();
     let mut report = Report::new(
         "http_swarm",
